@@ -33,6 +33,13 @@ def run(chk, tier):
         chk.case(("par", hx(bs[0]), hx(ks[0])))
     cfgs = ["hazmat", "hazmat-cpuoff", "hazmat-soft", "hazmat-softcompact"]
     outs, model = chk.run_family(cfgs, ops, cross=True)
+    # the ARMv8 hazmat functions (/repo/aes/src/armv8/hazmat.rs over software intrinsics): same lines, `hazmatarm`; compared
+    # with their Lean model and, on the real build, with the native (AES-NI) answers line by line
+    aops = ["hazmatarm" + op[len("hazmat"):] for op in ops]
+    aouts, _ = chk.run_family(["hazmat"], aops, family="hazmatarm")
+    for op, a, b in zip(aops, aouts.get("hazmat", []), outs.get("hazmat", [])):
+        if a != b:
+            chk.violation(op[:150] + " [armv8≠native]", {"kind": "config-divergence", "configs": ["armv8-shadow", "hazmat"], "op": op, "armv8": a, "native": b})
     if chk.nomodel:
         chk.broken.append({"no_model_for": ["hazmat"]})
     for cn, impl in outs.items():
